@@ -316,12 +316,31 @@ func main() {
 	allSeen := core.NewSeen()
 	worlds := map[string]*World{}
 	completed := map[string]interface{}{}
+	unbuildable := map[string]bool{}
 	var names []string
 	alphas := map[string]interface{}{}
 	for ri, rn := range plan {
 		w := worlds[rn.Cfg.Name]
+		if _, bad := unbuildable[rn.Cfg.Name]; bad {
+			continue
+		}
 		if w == nil {
-			w = NewWorld(rn.Cfg, r)
+			// the world is composed through real messages (pools, positions, parameters); if the code under test refuses
+			// one of them the configuration is skipped, visibly, like an unbuildable seed
+			func() {
+				defer func() {
+					if p := recover(); p != nil {
+						fmt.Fprintln(os.Stderr, "harness: configuration cannot be built, skipped:", rn.Cfg.Name, p)
+						unbuildable[rn.Cfg.Name] = true
+						r.Rejected["configuration-unbuildable: "+rn.Cfg.Name]++
+						r.Exhaustive = false
+					}
+				}()
+				w = NewWorld(rn.Cfg, r)
+			}()
+			if w == nil || unbuildable[rn.Cfg.Name] {
+				continue
+			}
 			worlds[rn.Cfg.Name] = w
 			r.Extra["thresholds_"+rn.Cfg.Name] = fmt.Sprintf("uosmo>=%d r1>=%d r2>=%d", w.Min[0], w.Min[1], w.Min[2])
 		}
@@ -352,8 +371,14 @@ func main() {
 				Replay: replayCfg{Config: rn.Cfg, Seed: rn.Seed, Ops: []Op{}}})
 		})
 		if err != nil {
-			fmt.Fprintln(os.Stderr, "harness: seed cannot be built:", err)
-			os.Exit(2)
+			// On the tree this harness was written against every seed builds (checked whenever the harness changes).
+			// If the code under test now refuses a step of a seed, that seed is skipped - visibly - and the other runs
+			// go on: the statement does not promise that these requests are accepted, and one refused step must not
+			// silence the whole check.
+			fmt.Fprintln(os.Stderr, "harness: seed cannot be built, skipped:", err)
+			r.Rejected["seed-unbuildable: "+rn.Cfg.Name+"/"+rn.Seed]++
+			r.Exhaustive = false
+			continue
 		}
 		ex := core.NewExplorer(sc, f, r)
 		was, t0 := r.Exhaustive, r.Transitions
